@@ -109,6 +109,7 @@ type RPCPlan struct {
 	Backend     BackendPlan `json:"backend"`
 	Passthrough bool        `json:"passthrough,omitempty"` // backend should treat the request as opaque (C13)
 	Relaxed     bool        `json:"relaxed,omitempty"`     // full-duplex RPC with a one-sided fault: its outcome legitimately depends on the schedule
+	LibFaults   []Fault     `json:"lib_faults,omitempty"`  // the At-th call of Kind (marshal, unmarshal, comp.write, comp.close, decomp.reset, decomp.read, decomp.close) made on behalf of this RPC fails
 }
 
 type PoolPlan struct {
